@@ -5,13 +5,14 @@ from hypothesis import strategies as st
 
 from .. import gen
 from ..build import Injected
+from ..gen import prob
 from ..core import Violation
 from ..rich import execute
 from ..trace import normalise, tree_form
 
 ID = "C13"
 LEVEL = "fault_enumeration"
-BUDGET = {"quick": 240, "thorough": 6000}
+BUDGET = {"quick": 320, "thorough": 6000}
 SHARDS = {"quick": 8, "thorough": 16}
 RULE = (
     "Programs as in C12 (nested, sibling nested graphs, gates, loops, map, cache hits, failing nodes; sync/async/scheduled). A "
@@ -32,9 +33,34 @@ def _case(draw, tier):
     c["runs"] = 1
     c["omit_required"] = False
     c["bad_on_missing"] = False
+    c["async_style"] = draw(st.booleans())
+    c["suspend"] = draw(st.sampled_from([0, 0, 1, 2, 3]))  # an async observer really awaits before it raises
+    if c["suspend"] and c["runner"] != "sync":
+        c["async_style"] = True
+        if c["kind"] in ("g1", "g1nest", "g1multi") and draw(st.booleans()):
+            c["method"] = "map"
+    if c["suspend"]:
+        def strip(ns):
+            for n in ns:
+                n.pop("cache", None)
+                if n["k"] == "graph":
+                    strip(n["graph"]["nodes"])
+        strip(c.get("nodes") or [])  # see check_case: suspension is only used on cache-free programs
+        if c["kind"] == "g1":
+            # two nodes that fail in the SAME superstep (both are sources): which error the run reports must not depend on
+            # how long an observer takes over their events
+            produced = {o for n in c["nodes"] for o in n.get("outs", [])}
+            srcs = [n for n in c["nodes"] if n["k"] == "func" and not any(q in produced for q in n["params"])]
+            if len(srcs) >= 2:
+                for n in draw(st.permutations(srcs))[:2]:
+                    n["fail"] = "always"
+                c["error_handling"] = draw(st.sampled_from(["raise", "continue"]))
+        if c["method"] == "map" and c.get("mc") is None and draw(st.booleans()):
+            c["mc"] = 2  # the bounded map path has its own ordering bookkeeping
+        c["nitems"] = max(c["nitems"], 2)
+    c["unhashable"] = prob(draw, 0.2)  # observers written as @dataclass / with __eq__ are not hashable
     c["exc"] = draw(st.sampled_from(["message", "message", "empty", "bare_class", "multiline", "non_str_args", "keyerror_empty"]))
     c["idx_draw"] = draw(st.lists(st.integers(0, 10_000), min_size=40, max_size=40))
-    c["async_style"] = draw(st.booleans())
     return c
 
 
@@ -61,7 +87,9 @@ def _exc(kind, where):
     return RuntimeError(f"observer failure {where}")
 
 
-def _make_probe_classes(exc_kind="message"):
+def _make_probe_classes(exc_kind="message", suspend=0, unhashable=False):
+    import asyncio
+
     from hypergraph.events import AsyncEventProcessor, EventProcessor
 
     class Probe(EventProcessor):
@@ -96,7 +124,13 @@ def _make_probe_classes(exc_kind="message"):
             return Probe.on_event(self, event)
 
         async def on_event_async(self, event):
-            return Probe.on_event(self, event)
+            i = self.i
+            self.i += 1
+            self.events.append(event)
+            if self.fail_at == "all" or self.fail_at == i:
+                for _ in range(suspend):
+                    await asyncio.sleep(0)
+                raise _exc(exc_kind, f"at event {i}")
 
         def shutdown(self):
             return Probe.shutdown(self)
@@ -104,15 +138,28 @@ def _make_probe_classes(exc_kind="message"):
         async def shutdown_async(self):
             return Probe.shutdown(self)
 
+    if unhashable:
+        for cls in (Probe, AsyncProbe):
+            cls.__eq__ = lambda self, other: self is other
+            cls.__hash__ = None
     return Probe, AsyncProbe
+
+
+CALLS_AS_SET = [False]  # per case: a suspending observer shifts the interleaving of concurrent items; with cached nodes the NUMBER
+# of invocations then depends on who reaches the cache first (a schedule effect, not an effect of the failure)
+
+
+def _calls(call):
+    c = sorted(map(repr, call.ctx_log))
+    return sorted(set(c)) if CALLS_AS_SET[0] else c
 
 
 def _form(call):
     o = call.outcome
     if o.status == "map":
         res = o.result
-        return ("map", [(r.status.value, repr(sorted((k, repr(v)) for k, v in r.values.items())), _err(r.error)) for r in res], sorted(map(repr, call.ctx_log)))
-    return (o.status, repr(sorted((k, repr(v)) for k, v in (o.values or {}).items())), _err(o.error), sorted(map(repr, call.ctx_log)))
+        return ("map", [(r.status.value, repr(sorted((k, repr(v)) for k, v in r.values.items())), _err(r.error)) for r in res], _calls(call))
+    return (o.status, repr(sorted((k, repr(v)) for k, v in (o.values or {}).items())), _err(o.error), _calls(call))
 
 
 def _err(e):
@@ -124,10 +171,24 @@ def _err(e):
 
 
 def check_case(case, ev):
-    Probe, AsyncProbe = _make_probe_classes(case.get("exc", "message"))
+    Probe, AsyncProbe = _make_probe_classes(case.get("exc", "message"), case.get("suspend", 0), case.get("unhashable", False))
     use_async_style = case["async_style"] and case["runner"] != "sync"
     P = AsyncProbe if use_async_style else Probe
     labels = {f"kind:{case['kind']}", f"method:{case['method']}", f"runner:{case['runner']}", "style:" + ("async" if use_async_style else "sync"), "exc:" + case.get("exc", "message")}
+
+    def _any_cached(ns):
+        return any(n.get("cache") or (n["k"] == "graph" and _any_cached(n["graph"]["nodes"])) for n in ns)
+
+    # A suspending observer shifts the interleaving of concurrent map items / sibling nodes; with cached nodes, who reaches
+    # the cache first (hit or miss, hence invocation counts and CacheHit events) then legitimately depends on it.  Suspension
+    # is therefore only used on programs without cached nodes.
+    suspend = case.get("suspend", 0)
+    if suspend and _any_cached(case.get("nodes") or []):
+        suspend = 0
+    if suspend and use_async_style:
+        labels.add("suspending_async_observer")
+    Probe, AsyncProbe = _make_probe_classes(case.get("exc", "message"), suspend, case.get("unhashable", False))
+    P = AsyncProbe if use_async_style else Probe
 
     def run_with(procs_fn):
         return execute(case, procs_fn, n_calls=1)
@@ -152,7 +213,9 @@ def check_case(case, ev):
         raise Violation("c13.recorder_changed_run", f"a healthy recorder changed the outcome: {_form(base_calls[0])[:3]} vs {want[:3]}")
     stream = base_rec[0].events
     N = len(stream)
-    exact = case["runner"] in ("sync", "sched")
+    # an async observer that suspends before raising lets sibling tasks overtake: the healthy stream is then the same TREE,
+    # not the same interleaving
+    exact = case["runner"] == "sync" or (case["runner"] == "sched" and not (use_async_style and suspend))
     base_norm = normalise(stream) if exact else tree_form(stream)
     cap = 24 if ev.tier == "quick" else 40
     idxs = list(range(N)) if N <= cap else sorted({d % N for d in case["idx_draw"][:cap]})
